@@ -142,6 +142,7 @@ def run(ctx, res):
                 r5_bad.add(_short(nxt or "<none>"))
         if len(res.samples) < 8:
             res.samples.append({"path": label or "text-token", "token_placed": placed, "children_consumed": childs if recursed else None, "exit": o["exit"]})
+    progress_and_pairing(res, fn, loc, outs, parts_id)
     # R6: a closing tag is normalised in the same way where it is *recognised* as the closer of an open element (ancestor
     # test) and where it is *paired* with its opener: otherwise `<//a>` is recognised as closing `a` by one and rejected by
     # the other, every level unwinds and the rest of the document is lost.  Decided on the slash-count abstraction of the
@@ -273,6 +274,82 @@ def run(ctx, res):
         else:
             res.holds("C10.R2", fshort(b_), site)
     res.floor("C10.R2", "tag-name uses in the parser module", cnt, 3)
+
+
+def progress_and_pairing(res, fn, loc, outs, parts_id):
+    """R7 (progress): on every path the cursor moves by exactly one token before anything else, the recursive call starts at
+    the moved cursor, the cursor then continues where the recursion stopped, and what is handed back to the caller is the
+    current cursor.  R8 (pairing): when the recursion comes back with a closing tag, an element is built exactly on the paths
+    where the opener's name equals the closer's name without its slash; otherwise the closer is handed further up and no
+    element is built.  R9 (ancestors): the opener is on the list of open elements that the recursive call is given."""
+    n7 = n8 = n9 = 0
+    for o in outs:
+        d = o["decisions"]
+        if d.get("is_some(tokens.get(cursor))") is not True and "is_some(tokens.get(cursor))" in d and o["exit"] == "fall":
+            continue
+        label = ",".join("%s=%s" % (_short(k), v) for k, v in d.items() if k != "is_some(tokens.get(cursor))") or "text-token"
+        assigns = [A.show(e[2]) for e in o["effects"] if e[0] == "assign" and str(e[1]) == "cursor"]
+        calls = [e for e in o["effects"] if e[0] == "call" and str(e[1]).split("::")[-1] == "tree"]
+        bad = None
+        fetched = d.get("is_some(tokens.get(cursor))") is True
+        cur = "cursor"
+        if fetched or assigns:
+            if not assigns or assigns[0] != "(cursor + 1)":
+                bad = "the cursor is not moved by exactly one token first (assignments: %s)" % (assigns or "none")
+            else:
+                cur = assigns[0]
+                rest = assigns[1:]
+                if calls:
+                    if len(rest) != 1 or not re.match(r"^tree\(tokens, \(cursor \+ 1\), .*\)\.0$", rest[0]):
+                        bad = "after the recursive call the cursor does not continue where the recursion stopped (assignments: %s)" % assigns
+                    else:
+                        cur = rest[0]
+                elif rest:
+                    bad = "the cursor is assigned again without a recursive call (assignments: %s)" % assigns
+        if bad is None and o["exit"] in ("break", "return") and isinstance(o["value"], A.Tuple) and len(o["value"].items) == 2:
+            back = A.show(o["value"].items[0])
+            # (at the end of the input any position at or behind the end says the same thing to the caller)
+            if back != cur and not (not fetched and back in ("cursor", "(cursor + 1)")):
+                bad = "hands `%s` back to the caller as the position to continue at; the cursor stands at `%s`" % (back, cur)
+        if bad:
+            res.add(Finding("C10.R7", fn, "progress:" + label, "token cursor: " + bad, loc=loc))
+        else:
+            n7 += 1
+            res.holds("C10.R7", fn, "progress:" + label)
+        if not calls:
+            continue
+        # R9
+        pushed = [A.show(e[2]) for e in o["effects"] if e[0] == "push" and T.local_of(T.peel_ref(e[3]["recv"])) != parts_id]
+        if any("parse(tokens.get(cursor).some).some" in v for v in pushed):
+            n9 += 1
+            res.holds("C10.R9", fn, "opener-on-stack:" + label)
+        else:
+            res.add(Finding("C10.R9", fn, "opener-on-stack:" + label, "the opening tag is not added to the list of open elements before its children are parsed: its own closing tag "
+                            "inside a nested element is no longer recognised as an ancestor's closer", loc=loc))
+        # R8
+        closer = [k for k in d if re.match(r"^is_some\(tree\(.*\)\.1\)$", k)]
+        if not closer or d[closer[0]] is not True:
+            continue
+        eqs = [k for k in d if k.startswith("eq(") and "tree(" in k and ".name" in k]
+        built = any(e[0] in ("extend", "push") and T.local_of(T.peel_ref(e[3]["recv"])) == parts_id and "ContentPart::Element(" in A.show(e[2]) for e in o["effects"])
+        handed_up = o["exit"] in ("break", "return") and isinstance(o["value"], A.Tuple) and len(o["value"].items) == 2 and isinstance(o["value"].items[1], A.Variant) \
+            and o["value"].items[1].name == "Some"
+        if len(eqs) != 1:
+            res.cannot("C10.R8", fn, "pairing:" + label, "the comparison of the opener's name with the returned closer's name was not found on this path (%d candidates)" % len(eqs), loc)
+            continue
+        same = d[eqs[0]] is True
+        if same and built and not handed_up:
+            n8 += 1
+            res.holds("C10.R8", fn, "pairing:" + label)
+        elif (not same) and handed_up and not built:
+            n8 += 1
+            res.holds("C10.R8", fn, "pairing:" + label)
+        else:
+            res.add(Finding("C10.R8", fn, "pairing:" + label, "opener and returned closer have %s names, yet %s" % (
+                "equal" if same else "different", "an element is built" if built else "no element is built" + (" and the closer is handed up" if handed_up else " and the closer is dropped")), loc=loc))
+    res.floor("C10.R7", "paths with a checked cursor", n7, 6)
+    res.floor("C10.R8", "paths that decide the pairing", n8, 4)
+    res.floor("C10.R9", "recursive descents with the opener on the stack", n9, 3)
 
 
 def _short(k):
